@@ -3,6 +3,7 @@ import re
 
 T = "RsslVerif.Thm.C03."
 TX = "RsslVerif.Thm.C03X."
+TD = "RsslVerif.Thm.C03D."
 
 NONCONST = set("vrkun")
 
@@ -13,6 +14,9 @@ def nontrivial(req, obs):
         return True
     if f[0] in ("C03.type", "C03.typex"):
         return obs.count(" ") >= 1            # at least two typed nodes
+    if f[0] == "C03.decl":
+        # a named type carrying a modifier, or a modifier at the use site, and a declaration the checker accepts
+        return len(f) == 7 and (f[3] not in ("-", "0") or f[4] != "-") and obs.startswith("decl ")
     if f[0] == "C03.progx":
         return len(f) >= 7 and any(k in f[5] for k in ("(un ", "(bin ", "(tern ", "(call ", "(icall ", "(mem ", "(idx ", "(ctor ",
                                                        "(ret ", "(decl ", "(if ", "(for ", "(while "))
@@ -107,6 +111,24 @@ def finding_key(req, obs, detail):
 def shrink(req):
     """replace the statement's expression by one of its sub-expressions (as an expression statement)"""
     f = req.split("\t")
+    if f[0] == "C03.decl" and len(f) == 7:
+        layers = [] if f[3] == "-" else f[3].split(",")
+        for i in range(len(layers)):
+            rest = layers[:i] + layers[i + 1:]
+            yield "\t".join(f[:3] + [",".join(rest) if rest else "-"] + f[4:])
+            if len(layers[i]) > 1:
+                for j in range(len(layers[i])):
+                    yield "\t".join(f[:3] + [",".join(layers[:i] + [layers[i][:j] + layers[i][j + 1:]] + layers[i + 1:])] + f[4:])
+        if f[4] != "-":
+            for j in range(len(f[4])):
+                yield "\t".join(f[:4] + [(f[4][:j] + f[4][j + 1:]) or "-"] + f[5:])
+        if f[2] != "td":
+            yield "\t".join(f[:2] + ["td"] + f[3:])
+        if f[5] != "local":
+            yield "\t".join(f[:5] + ["local", f[6]])
+        if f[1] != "s.Float32":
+            yield "\t".join([f[0], "s.Float32"] + f[2:])
+        return
     if f[0] == "C03.progx" and len(f) == 7:
         s = f[5]
         starts = []
@@ -168,6 +190,23 @@ def search(ctx):
         for t in VARS:
             reqs.append("C03.prog\t%s\t-/s.Float32\t(init %s %s)\tany" % (env, t, x))
     reqs += search_ext()
+    reqs += search_decl()
+    return reqs
+
+
+def search_decl():
+    """declared types: every keyword carried by a typedef / a typedef of a typedef / a template argument x every single
+    keyword and `const volatile` at the use site x storage x write form, on a float scalar, a float matrix and a struct"""
+    reqs = []
+    kws = ["c", "v", "r", "k", "u", "n"]
+    for base in ("s.Float32", "m.Float32.2.2", "o.0"):
+        for chain in ["-"] + kws + [k + ",0" for k in kws] + ["0," + k for k in kws] + ["c,v", "v,c", "c,r", "c,u"]:
+            for use in ["-"] + kws + ["cv", "vc"]:
+                for storage in ("local", "param", "static", "member", "elem"):
+                    for write in ("assign", "inc", "out", "comp"):
+                        reqs.append("C03.decl\t%s\ttd\t%s\t%s\t%s\t%s" % (base, chain, use, storage, write))
+                    if storage != "static":
+                        reqs.append("C03.decl\t%s\ttp\t%s\t%s\t%s\tassign" % (base, chain, use, storage))
     return reqs
 
 
@@ -209,8 +248,8 @@ def search_ext():
 
 SPEC = {
     "id": "C03",
-    "gens": ["RankTable", "TypingTables", "IntrinsicSigs", "ElabTables"],
-    "lean_modules": ["RsslVerif.Thm.C03", "RsslVerif.Thm.C03X"],
+    "gens": ["RankTable", "TypingTables", "IntrinsicSigs", "ElabTables", "TypeMods"],
+    "lean_modules": ["RsslVerif.Thm.C03", "RsslVerif.Thm.C03X", "RsslVerif.Thm.C03D"],
     "theorems": [T + n for n in [
         "find_sound", "find_rejects_rvalue_to_lvalue", "find_keeps_const",
         "elab_sound", "elab_debug_check_redundant", "elabStmt_sound", "ids_in_range",
@@ -243,7 +282,12 @@ SPEC = {
         "assignment_operands", "binary_operands_equal", "binop_rules",
         "elab_assign_exact", "elab_arith_exact", "elab_call_args_exact", "elab_intrinsic_call_exact",
         "resource_index_widths", "resource_element_constness",
-        "swizzle_in_range", "matrix_swizzle_in_range", "member_of_struct", "ctor_slots_exact"]],
+        "swizzle_in_range", "matrix_swizzle_in_range", "member_of_struct", "ctor_slots_exact"]] + [TD + n for n in [
+        # declared types: the modifiers of a typedef / template parameter and the modifiers written at the use site
+        "parse_type_for_usage_as_modelled", "mergeModifiers_flag", "declared_modifier_is_union_of_layers",
+        "typedef_const_survives_use_site_modifiers", "typedef_modifiers_survive_use_site_modifiers",
+        "struct_member_const_comes_from_the_type", "declared_modifier_consistent", "conflicting_modifiers_rejected",
+        "typedef_const_write_rejected", "mutant_discipline_drops_typedef_const"]],
     "harness": "c03",
     "nontrivial": nontrivial,
     "finding_key": finding_key,
